@@ -383,6 +383,9 @@ func propC11(w *World, r *Report) {
 			r.Floor("H4", 5)
 		}
 	}
+	// every frame of the stream reaches the files: the parsers reject exactly the frames with a zero pixel outside the
+	// border (a valid frame that is rejected is missing from every recording)
+	checkParsers(w, r, "H5")
 	// preview-secs and min-secs also shape the files through the throttler: its minimum recording length is their sum
 	checkThrottleWiringAs(w, r, "H4", false)
 	// the throttler sits between the processor and the file recorder when activated: it must pass the trigger's
